@@ -18,6 +18,8 @@ def alloc(L, shape, dr=0, dc=0, fill='zeros', seed=0, layout='C'):
     shp = (int(shape[0]) + dr, int(shape[1]) + dc)
     if layout == 'F':
         a = np.zeros(shp, dtype=complex, order='F')
+    elif layout == 'c64':
+        a = np.zeros(shp, dtype=np.complex64)       # "complex ndarray": a single-precision work area is one
     elif layout == 'view':
         a = np.zeros((shp[0] + 3, shp[1] + 5), dtype=complex)[2:2 + shp[0], 1:1 + shp[1]]
     else:
@@ -32,7 +34,7 @@ def parity(shape):
     return 'mixed' if len(p) == 2 else ('odd' if 1 in p else 'even')
 
 
-def check_fft_pair(L, w, rs, rn, du, oversample):
+def check_fft_pair(L, w, rs, rn, du, oversample, scratch_rtol=None):
     """Compare FFT results (with / without scratch) with each other and with the DFT evaluated at the
     wavelength the FFT result reports.  Only public API is used."""
     out = {'premise': True}
@@ -52,13 +54,13 @@ def check_fft_pair(L, w, rs, rn, du, oversample):
     for name, r in (('scratch', rs), ('noscratch', rn)):
         if isinstance(r, L.Wavefront):
             f = r.field
-            out['dft_' + name] = close(f, fd, rtol=1e-8)
+            out['dft_' + name] = close(f, fd, rtol=(scratch_rtol or 1e-8) if name == 'scratch' else 1e-8)
             out['dft_' + name + '_err'] = maxerr(f, fd)
             out['meta_' + name] = (str(r.ptype) == ('image' if str(w.ptype) == 'pupil' else 'pupil')
                                    and np.allclose(np.asarray(r.pixelscale, dtype=float), du2, rtol=1e-12, atol=0)
                                    and r.focal_length == w.focal_length)
     if isinstance(rs, L.Wavefront) and isinstance(rn, L.Wavefront):
-        out['scratch_same'] = (rs.wavelength == rn.wavelength) and close(rs.field, rn.field, rtol=1e-10)
+        out['scratch_same'] = (rs.wavelength == rn.wavelength) and close(rs.field, rn.field, rtol=scratch_rtol or 1e-10)
         out['scratch_err'] = maxerr(rs.field, rn.field)
     return out
 
@@ -149,6 +151,8 @@ class FftHooks(Hooks):
             if tag.get('backward'):
                 sig_base['direction'] = 'image-to-pupil'
                 it.probe('backward_hop')
+            if tag.get('c64') and 'scratch_same' in v:
+                it.probe('single_precision_scratch')
             it.probe('grid:' + v['grid'])
             if v['pupil'] in ('odd', 'mixed') and v['grid'] in ('even', 'mixed'):
                 it.probe('odd_pupil_even_grid')
@@ -189,7 +193,7 @@ class FftScenario(Scenario):
                    'per-axis pixel scales are generated commensurate with one propagation wavelength; otherwise FFT != DFT by construction',
                    'the DFT reference is the real propagate_dft (an error common to both propagators is C01/C02 territory)']
     must_hit = ['grid:odd', 'grid:even', 'odd_pupil_even_grid', 'multifield_scratch', 'scratch:exact', 'scratch:larger',
-                'grid_shrinks', 'grid_grows', 'refuse:short-scratch', 'refuse:tilt', 'refuse:big-shape', 'refuse:tilt-not-angular', 'shape_in_caller_array', 'field_view_edited_before_propagation', 'coarse_quick_look_first', 'refuse:tilt-backward', 'backward_hop']
+                'grid_shrinks', 'grid_grows', 'refuse:short-scratch', 'refuse:tilt', 'refuse:big-shape', 'refuse:tilt-not-angular', 'shape_in_caller_array', 'field_view_edited_before_propagation', 'coarse_quick_look_first', 'refuse:tilt-backward', 'backward_hop', 'single_precision_scratch']
     probe_names = must_hit + ['grid:mixed', 'coldwarm_audit']
 
     def make_fns(self):
@@ -277,7 +281,8 @@ class FftScenario(Scenario):
             ev.append(E('scratch_shape', None, {'wavelength': lam, 'dx': dx, 'du': du, 'z': f, 'oversample': os_}, id=ss))
             sc = nid('sc')
             extra = (0, 0) if mode == 'exact' else (rng.randint(1, 4), rng.randint(0, 4))
-            ev.append(E('alloc', ['@' + ss], {'dr': extra[0], 'dc': extra[1], 'layout': rng.choice(['C', 'C', 'F', 'view']),
+            sc_layout = force.get('layout') or rng.choice(['C', 'C', 'F', 'view', 'c64'])
+            ev.append(E('alloc', ['@' + ss], {'dr': extra[0], 'dc': extra[1], 'layout': sc_layout,
                                              'fill': force.get('fill') or rng.choice(['zeros', 'nan', 'inf', 'garbage', 'big']), 'seed': sd()}, id=sc))
             short = nid('sh')
             ev.append(E('alloc', ['@' + ss], {'dr': rng.choice([-1, 0]), 'dc': -1, 'fill': 'garbage', 'seed': sd()}, id=short))
@@ -328,7 +333,9 @@ class FftScenario(Scenario):
             if sc is None or rng.random() < 0.7 or force:
                 rn = nid('R')
                 ev.append(E('propagate_fft', ['@' + w1], dict(k), id=rn, t=dict(tag)))
-            ev.append(E('check.fft_pair', ['@' + w1, '@' + rs if rs else None, '@' + rn if rn else None, du, os_]))
+            ev.append(E('check.fft_pair', ['@' + w1, '@' + rs if rs else None, '@' + rn if rn else None, du, os_],
+                        # (what went through a single-precision work area is compared at single precision)
+                        {'scratch_rtol': 2e-5} if (sc is not None and sc_layout == 'c64') else None, t={'c64': sc is not None and sc_layout == 'c64'}))
             if rn is not None and 'shape' not in k and not peraxis and isinstance(dx, float) and (rng.random() < 0.3 or force):
                 # ... and back: the image-plane result (the whole grid) sent to a pupil plane sampled like the entrance pupil, with and
                 # without the shared scratch buffer -- judged like any other hop, against the DFT of the very same input
@@ -342,7 +349,8 @@ class FftScenario(Scenario):
                     rbs = nid('R')
                     ev.append(E('propagate_fft', ['@' + rn], dict(kb, scratch='@' + sc), id=rbs, inplace=['@' + sc],
                                 t={'expect': 'ok', 'case': 'backward', 'nfields': 1, 'size': 'larger'}))
-                ev.append(E('check.fft_pair', ['@' + rn, '@' + rbs if rbs else None, '@' + rb, dx, 1], t={'backward': True}))
+                ev.append(E('check.fft_pair', ['@' + rn, '@' + rbs if rbs else None, '@' + rb, dx, 1],
+                            {'scratch_rtol': 2e-5} if (rbs and sc_layout == 'c64') else None, t={'backward': True}))
             os2 = os_ % 3 + 1
             g2 = lam[i] * f * os2 / (dx * d0)
             fits = abs(g2 - round(g2)) <= 0.3 and round(g2) >= max(S)      # supported regime, unambiguous grid
@@ -395,6 +403,9 @@ class FftScenario(Scenario):
                         kt = dict(k)
                         if sc is not None:
                             kt['scratch'] = '@' + sc
+                        if rng.random() < 0.5 or force:
+                            # the caller looks at the tilted wavefront first (its views are reads: the tilt it carries is still there)
+                            ev.append(E('attr', ['@' + wt, rng.choice(['field', 'intensity'])], t={'views_read_before_refusal': True}))
                         ev.append(E('propagate_fft', ['@' + wt], kt, t={'expect': 'refuse', 'case': 'tilt'}))
                         if rn is not None and rng.random() < 0.5 and not peraxis:
                             # ... and in the other direction: the image-plane result, given tilt, is not propagated back without it
